@@ -1,7 +1,7 @@
 (* C12 -- Moral graph adjacency is collider-connectedness and decides separation. Statements: C12/Spec.v *)
 From Coq Require Import List Arith.
 From PG Require Import Base.ListSet Graph.MGraph Graph.MSep Graph.Walks C12.Model C12.Enum C12.Spec C12.Proofs C12.CriterionFwd
-  C12.Bounded_3 C12.Bounded_4.
+  C12.CriterionBwd C12.Bounded_3 C12.Bounded_4.
 Import ListNotations.
 
 (* clause 1 (all graphs): adjacent in the moral graph <-> joined by an edge or by a path whose inner nodes are all colliders *)
@@ -43,7 +43,33 @@ Theorem moral_criterion_fwd : forall g X Y Z,
 Proof. exact C12.CriterionFwd.moral_criterion_fwd. Qed.
 Print Assumptions moral_criterion_fwd.
 
-(* clause 2, for every graph of the domain of C01 on at most 3 nodes and all pairwise disjoint X, Y, Z:
+(* clause 2, the converse, for ALL graphs of the domain of C01 and all sizes: m-separated => vertex cut *)
+Theorem moral_criterion_bwd : forall g X Y Z,
+  acyclicb g = true -> ancestral_und g -> incl X (V g) -> incl Y (V g) -> incl Z (V g) ->
+  disjointb X Y = true -> disjointb X Z = true ->
+  msep g X Y Z -> moral_sep g X Y Z = true.
+Proof. exact C12.CriterionBwd.moral_criterion_bwd. Qed.
+Print Assumptions moral_criterion_bwd.
+
+(* clause 2 IN FULL, all sizes: X and Y are m-separated by Z in g (m-connecting paths) iff Z separates them, as an ordinary
+   vertex cut, in the moral graph of the subgraph induced by the anterior closure of X, Y and Z *)
+Theorem moral_criterion : forall g X Y Z,
+  acyclicb g = true -> ancestral_und g -> incl X (V g) -> incl Y (V g) -> incl Z (V g) ->
+  disjointb X Y = true -> disjointb X Z = true -> disjointb Y Z = true ->
+  (msep g X Y Z <-> moral_sep g X Y Z = true).
+Proof. exact C12.CriterionBwd.moral_criterion. Qed.
+Print Assumptions moral_criterion.
+
+(* the same with the domain of C01 given by the boolean class tests (statement C12.Spec.moral_criterion_stmt) *)
+Theorem moral_criterion_full : forall g X Y Z,
+  (wf g /\ C g = [] /\ acyclicb g = true /\ (U g = [] \/ anc_ok g = true)) ->
+  incl X (V g) -> incl Y (V g) -> incl Z (V g) ->
+  disjointb X Y = true -> disjointb X Z = true -> disjointb Y Z = true ->
+  (msep g X Y Z <-> moral_sep g X Y Z = true).
+Proof. exact C12.CriterionBwd.moral_criterion_full. Qed.
+Print Assumptions moral_criterion_full.
+
+(* clause 2 again, independently, by kernel computation: every graph of the domain of C01 on at most 3 nodes and all pairwise disjoint X, Y, Z:
    m-separated (by paths, Graph/MSep.v) <-> Z is a vertex cut in the moral graph of the anterior subgraph *)
 Theorem moral_criterion_bounded_3 : forall n ks, n <= 3 -> in_admg n ks \/ in_anc n ks ->
   forall X Y Z, In X (sublists (seq 0 n)) -> In Y (sublists (seq 0 n)) -> In Z (sublists (seq 0 n)) ->
